@@ -36,8 +36,9 @@ def F(name, seconds):
 
 PROPS = {
     "C01": dict(pkg="c01", level="exploration",
-                quick=[R(checks=1200), R(checks=300, shards=2, env={"VERIF_C01_LOOP": "1"})],
-                thorough=[R(checks=6000, shards=16, timeout=1500), R(checks=4000, shards=8, timeout=1500, env={"VERIF_C01_LOOP": "1"})]),
+                quick=[R(checks=1200), R(checks=300, shards=2, env={"VERIF_C01_LOOP": "1"}), R(checks=70, shards=2, env={"VERIF_C01_NCLOOP": "1"})],
+                thorough=[R(checks=6000, shards=16, timeout=1500), R(checks=4000, shards=8, timeout=1500, env={"VERIF_C01_LOOP": "1"}),
+                          R(checks=700, shards=8, timeout=1500, env={"VERIF_C01_NCLOOP": "1"})]),
     "C02": dict(pkg="c02", level="exploration",
                 quick=[R(checks=1200)],
                 thorough=[R(checks=6000, shards=16, timeout=1500)]),
@@ -60,8 +61,9 @@ PROPS = {
                 quick=[R(checks=1500)],
                 thorough=[R(checks=6000, shards=16, timeout=1500)]),
     "C09": dict(pkg="c09", level="exploration",
-                quick=[R(checks=1200)],
-                thorough=[R(checks=6000, shards=16, timeout=1500)]),
+                quick=[R(checks=1200), R(checks=250, shards=2, env={"VERIF_C09_LOOP": "gnmi"}), R(checks=70, shards=2, env={"VERIF_C09_LOOP": "nc"})],
+                thorough=[R(checks=6000, shards=16, timeout=1500), R(checks=4000, shards=8, timeout=1500, env={"VERIF_C09_LOOP": "gnmi"}),
+                          R(checks=700, shards=8, timeout=1500, env={"VERIF_C09_LOOP": "nc"})]),
     "C10": dict(pkg="c10", level="exploration",
                 quick=[R(checks=700)],
                 thorough=[R(checks=3000, shards=16, timeout=1800)]),
